@@ -15,6 +15,8 @@ VERIF = os.path.dirname(os.path.dirname(os.path.abspath(__file__)))
 COQ = os.path.join(VERIF, 'coq')
 MRUN = os.path.join(VERIF, 'bin', 'mrun')
 PY = '/venv/bin/python'
+# the tree under test: /repo; VERIF_REPO points the harness at a scratch copy (mutation experiments only)
+REPO = os.environ.get('VERIF_REPO', '/repo')
 ERRCODE = {
     'ValueError': 1, 'TypeError': 2, 'LagtimeError': 3,
     'NotImplementedError': 4, 'IndexError': 5, 'FileError': 6, 'Other': 7,
@@ -228,7 +230,8 @@ class Worker:
 
     def __init__(self, prop, jit=True, threads=None, extra_env=None):
         env = dict(os.environ)
-        env['PYTHONPATH'] = '/repo/src' + os.pathsep + os.path.join(VERIF, 'harness')
+        env['PYTHONPATH'] = os.path.join(REPO, 'src') + os.pathsep + os.path.join(VERIF, 'harness')
+        env['VERIF_REPO'] = REPO
         env['PYTHONHASHSEED'] = '0'
         env['MPLBACKEND'] = 'Agg'
         env.pop('NUMBA_DISABLE_JIT', None)
